@@ -242,7 +242,8 @@ def check_run(ctx, r):
                                     f"{r['tag']}: `{a['code']}` on `{s['code']}` was stripped by remove_unused_variables ({caller}); the test case was then removed",
                                     {**case_info, "tid": t["tid"], "statement": s["code"], "assertion": a, "step": caller, "then": "test case removed"})
             continue
-        align = genfiles.align_statements(t["stmts"], [(s["bound"], genfiles.code_rhs_key(s["code"])) for s in tx["stmts"]])
+        align = genfiles.align_statements(t["stmts"], [(s["bound"], genfiles.code_rhs_key(s["code"]),
+                                                        {genfiles.unparse_code(a["code"]) for a in s["asserts"] if a.get("code")}) for s in tx["stmts"]])
         for k, s in enumerate(t["stmts"]):
             key = genfiles.code_rhs_key(s["code"])
             j = align[k]
@@ -312,7 +313,7 @@ def check_run(ctx, r):
         xfail = genfiles.is_xfail_decorated(fn)
         if len(stmt_groups) != len(t["stmts"]):
             ctx.anomaly("exported-function-statement-count-differs")
-        align = genfiles.align_statements(t["stmts"], [(genfiles.bound_of(g[1]), genfiles.rhs_key(g[1])) for g in stmt_groups])
+        align = genfiles.align_statements(t["stmts"], [(genfiles.bound_of(g[1]), genfiles.rhs_key(g[1]), set(g[3])) for g in stmt_groups])
         for k, s in enumerate(t["stmts"]):
             key = genfiles.code_rhs_key(s["code"])
             j = align[k]
